@@ -107,6 +107,23 @@ def segClosedB (w : Bytes) : Bool :=
     | .sep _ l => (walk w).all fun sr => !(sr.2 == Rec.savepoint) || !(decide (pr.1 < sr.1)) || decide (pr.1 + 12 + l ≤ sr.1 + 12)
     | _ => true
 
+/-- executable form of the `hdisj` hypothesis of the checksum theorems: a segment ends before the next separator starts -/
+def segDisjointB (w : Bytes) : Bool :=
+  (walk w).all fun pr =>
+    match pr.2 with
+    | .sep _ l => (walk w).all fun sr =>
+        match sr.2 with
+        | .sep _ _ => !(decide (pr.1 < sr.1)) || decide (pr.1 + 12 + l ≤ sr.1)
+        | _ => true
+    | _ => true
+
+/-- executable form of the hypothesis of `recover_cut_reset`: every reset mark is preceded by its separator -/
+def resetAfterSepB (w : Bytes) : Bool :=
+  (walk w).all fun pr =>
+    match pr.2 with
+    | .reset => (walk w).any fun sr => match sr.2 with | .sep _ _ => sr.1 + 12 == pr.1 | _ => false
+    | _ => true
+
 /-- the walk reaches the end of the log exactly (no undecodable tail) -/
 def walkFull (w : Bytes) : Bool :=
   let rec go : Nat → Bytes → Bool
